@@ -10,6 +10,7 @@ import Logg.Drive.C11
 import Logg.Drive.C12
 import Logg.Drive.C16
 import Logg.Drive.C17
+import Logg.Drive.C18
 import Logg.Drive.C19
 import Logg.Drive.C20
 
@@ -38,6 +39,7 @@ def dispatch (st : DriverState) (line : String) : DriverState × String :=
   | "C12" :: rest => let (s, o) := Drive.C12.step st.c12 rest; ({ st with c12 := s }, o)
   | "C16" :: rest => let (s, o) := Drive.C16.step st.c16 rest; ({ st with c16 := s }, o)
   | "C17" :: rest => let (s, o) := Drive.C17.step st.c17 rest; ({ st with c17 := s }, o)
+  | "C18" :: rest => (st, Drive.C18.step rest)
   | "C19P" :: rest => let (s, o) := Drive.C19.step st.c19p rest; ({ st with c19p := s }, o)
   | "C19B" :: rest => let (s, o) := Drive.C19.step st.c19b rest; ({ st with c19b := s }, o)
   | "C20" :: rest => (st, Drive.C20.step rest)
